@@ -16,7 +16,7 @@ RULE = (
     "Cases are a file layout <prefix dirs>/<root>/<0..3 namespaces>/[<port>.]<Short>.<major>.<minor>.dsdl (drawn names, versions 0..255, "
     "optional regulated port-ID, message or service) or a malformed file name (missing / extra / non-numeric components, dots in "
     "directory names) x a designation for read_files: target absolute / relative to cwd / ./-prefixed / relative to the root's parent; "
-    "root as absolute path, relative path, bare root-namespace name, via a symlink, or omitted (inferred from a relative target); cwd = "
+    "root as absolute path, relative path, bare root-namespace name, several bare names in either order (one also naming a nested namespace), via a symlink, or omitted (inferred from a relative target); cwd = "
     "the root's parent, the workspace top or elsewhere; Path vs str - and read_namespace.  Oracle: an independent path model: full_name, "
     "version, fixed_port_id, source_file_path (same file), source_file_path_to_root (same directory) are those encoded in the path and "
     "identical for every designation that designates the file at all; malformed names raise InvalidDefinitionError.  Non-trivial = "
@@ -44,7 +44,7 @@ def layout_path(case: typing.Any) -> typing.Tuple[str, str]:
 
 def designate(case: typing.Any, base: str, root_rel: str, file_rel: str) -> typing.Tuple[str, typing.Any, typing.Any, str]:
     """Returns (cwd, target argument, roots argument, label)."""
-    mode = case["designation"] % 9
+    mode = case["designation"] % 11
     root_abs = os.path.join(base, root_rel)
     file_abs = os.path.join(base, file_rel)
     parent_abs = os.path.dirname(root_abs)
@@ -71,6 +71,12 @@ def designate(case: typing.Any, base: str, root_rel: str, file_rel: str) -> typi
         return base, P(file_abs), [P(root_rel)], "abs-target,cwd-relative-root"
     if mode == 7:
         return parent_abs, P("./" + from_parent), [P(case["root"])], "dot-relative-target,root-name-as-relative-path"
+    if mode in (9, 10):
+        # several bare names; one of them is also the name of a nested namespace directory of this file: the root is the
+        # outermost directory of the path that bears a listed name, whatever the order of the list
+        extra = case["ns"][0] if case["ns"] else "unrelated"
+        names = [extra, case["root"], "another"] if mode == 9 else ["another", case["root"], extra]
+        return base, P(file_abs), names, "abs-target,several-bare-names:" + ("inner-first" if mode == 9 else "outer-first")
     link = os.path.join(base, "lnk")
     if not os.path.lexists(link):
         os.symlink(parent_abs, link)
@@ -131,7 +137,7 @@ def check_identity(case: typing.Any, ctx: Ctx) -> Info:
         require(got2 == want, "identity:read_namespace", want, got2, where)
     finally:
         ctx.cleanup(d)
-    nontrivial = len(case["ns"]) >= 2 or case["designation"] % 9 != 0
+    nontrivial = len(case["ns"]) >= 2 or case["designation"] % 11 != 0
     classes = ["designation:" + label, "depth:%d" % len(case["ns"]), "port" if case["port"] is not None else "no-port", "service" if case["service"] else "message"]
     return Info(nontrivial, classes, sample=where)
 
@@ -178,7 +184,7 @@ def parts(ctx: Ctx) -> typing.List[Part]:
             "version": st.tuples(st.sampled_from([0, 1, 2, 100, 255]), st.sampled_from([0, 1, 7, 255])).filter(lambda v: v != (0, 0)).map(list),
             "port": st.one_of(st.none(), st.none(), st.sampled_from([0, 1, 255, 511, 6144, 7000, 8191, 300])),
             "service": st.booleans(),
-            "designation": st.integers(0, 8),
+            "designation": st.integers(0, 10),
             "as_path": st.booleans(),
         }
     ).filter(lambda c: c["port"] is None or (c["port"] <= 511 if c["service"] else True))
